@@ -150,6 +150,14 @@ def corner_population(date, rnd, tid):
                 "m_pflichtbeitrag": lambda i, r, d, rr: rr.choice([0.0, 35.0, 36.0, 60.0, 240.0]) if d["alter"] >= 18 else 0.0,
                 "bruttolohn_m": lambda i, r, d, rr: rr.choice([0.0, 0.0, 450.0, 1500.0]) if d["alter"] >= 18 else 0.0}
     P = popgen.compose(structs, date, rnd, profile=prof)
+    if mode == "negative_rent" and (tid // len(MODES)) % 2 == 1:
+        # rental losses of pensioners with small pensions and no wealth (Grundsicherung im Alter range)
+        for p in P:
+            if p["alter"] >= 25:
+                p["alter"] = rnd.choice([67, 72, 80])
+                p["geburtsjahr"] = gs.year_of(date) - p["alter"]
+                p.update({"rentner": True, "jahr_renteneintr": p["geburtsjahr"] + 65, "bruttolohn_m": 0.0, "eink_selbst_m": 0.0, "kapitaleink_brutto_m": 0.0, "sonstig_eink_m": 0.0, "priv_rente_m": 0.0,
+                          "entgeltp_west": rnd.choice([0.0, 5.0, 10.0]), "entgeltp_ost": 0.0, "vermögen_bedürft": 0.0, "eink_vermietung_m": rnd.choice([-150.0, -2000.0]), "voll_erwerbsgemind": False, "teilw_erwerbsgemind": False})
     if mode == "old":
         for p in P:
             if p["alter"] >= 25:
